@@ -1,12 +1,17 @@
 import Tahoe.Base.DrvUtil
-import Tahoe.Mutable.PublishDecision
+import Tahoe.Mutable.PublishRun
 /-! Driver for C47.
 
     `pub K CS VERINFO WRITERS ev ev …`
         K = required_shares, CS = the publish's `_checkstring` (interned number), VERINFO = T|F
         (`self.versioninfo` set), WRITERS = sh@srv,sh@srv,… (`-` if none),
         ev = p:sh@srv (the proxy's request failed) | a:sh@srv:T|F:sh=cs,sh=cs,… (`-` for an empty read_data)
-        → result;surprised;writers left (sorted);placed (sorted, srv.sh);bad_servers (sorted)
+        → result;surprised;writers left (sorted);placed (sorted, srv.sh);bad_servers (sorted);goal (sorted, srv.sh)
+    `rpc K CS VERINFO WRITERS arr arr …`   (end to end: what happened to each proxy's request, in arrival order)
+        arr = sh@srv:A:T|F:rd (executed and answered) | sh@srv:B (failed before reaching the server)
+            | sh@srv:L:T|F (executed — wrote or refused — and the answer lost)
+        → as `pub`, plus ;slots that now hold the new version (sorted, srv.sh)
+    `proxy A:T|F:rd | B | L:T|F`  → what the write proxy's Deferred fires with: answer:T|F:rd or failure
     `goal TOTAL BAD FULL GOAL`
         BAD = server list, FULL = srv:T|F,… (permuted list with upload_permitted()), GOAL = srv.sh,…
         → new goal (sorted srv.sh) or `NotEnoughServersError` -/
@@ -44,22 +49,58 @@ def joinOr (sep : String) (l : List String) : String := if l.isEmpty then "-" el
 def showResult : Result → String
   | .success => "success" | .notEnoughServers => "NotEnoughServersError" | .uncoordinatedWrite => "UncoordinatedWriteError"
 
+def parseRpc (fs : List String) : Option Rpc :=
+  match fs with
+  | ["A", wrote, rd] => do pure (.answered (← parseB wrote) (← parseList (parsePair "=") "," rd))
+  | ["B"] => some .lostBefore
+  | ["L", wrote] => do pure (.lostAfter (← parseB wrote))
+  | _ => none
+
+def parseArrival (t : String) : Option (Writer × Rpc) :=
+  match t.splitOn ":" with
+  | w :: rest => do pure (← parseWriter w, ← parseRpc rest)
+  | _ => none
+
+def showSlots (l : List (Nat × Nat)) : String := joinOr "," ((sortBy pairLt l.eraseDups).map (fun x => s!"{x.1}.{x.2}"))
+
+def showState (r : Result) (q : Pub) : String :=
+  let sur := if q.surprised then "T" else "F"
+  showResult r ++ ";" ++ sur ++ ";" ++
+    joinOr "," ((sortBy pairLt (q.writers.map (fun w => (w.shnum, w.server)))).map (fun x => s!"{x.1}@{x.2}")) ++ ";" ++
+    showSlots q.placed ++ ";" ++
+    joinOr "," ((sortBy (· < ·) q.badServers).map toString) ++ ";" ++ showSlots q.goal
+
+def mkPub (k cs vi ws : String) : Option Pub := do
+  let writers ← parseList parseWriter "," ws
+  pure { k := ← k.toNat?, checkstring := ← cs.toNat?, haveVerinfo := ← parseB vi, writers := writers,
+         goal := writers.map (fun w => (w.server, w.shnum)) }
+
 def handle : List String → String
   | "pub" :: k :: cs :: vi :: ws :: evs =>
     match (do
-      let p : Pub := {
-        k := ← k.toNat?, checkstring := ← cs.toNat?, haveVerinfo := ← parseB vi,
-        writers := ← parseList parseWriter "," ws }
+      let p ← mkPub k cs vi ws
       let es ← evs.mapM parseEvent
-      let r := run p es
       -- the state after the events is only reached when the first `_push` did not fail
       let q := match pushCheck p with | some _ => p | none => es.foldl step p
-      let sur := if q.surprised then "T" else "F"
-      pure (showResult r ++ ";" ++ sur ++ ";" ++
-        joinOr "," ((sortBy pairLt (q.writers.map (fun w => (w.shnum, w.server)))).map (fun x => s!"{x.1}@{x.2}")) ++ ";" ++
-        joinOr "," ((sortBy pairLt q.placed).map (fun x => s!"{x.1}.{x.2}")) ++ ";" ++
-        joinOr "," ((sortBy (· < ·) q.badServers).map toString))) with
+      pure (showState (run p es) q)) with
     | some s => s
+    | none => "bad-op"
+  | "rpc" :: k :: cs :: vi :: ws :: arrs =>
+    match (do
+      let p ← mkPub k cs vi ws
+      let as ← arrs.mapM parseArrival
+      let q := match pushCheck p with | some _ => p | none => (eventsOf as).foldl step p
+      -- nothing is sent when the first `_push` fails
+      let stored := match pushCheck p with | some _ => [] | none => storedSlots as
+      pure (showState (runRpcs p as) q ++ ";" ++ showSlots stored)) with
+    | some s => s
+    | none => "bad-op"
+  | ["proxy", r] =>
+    match parseRpc (r.splitOn ":") with
+    | some rpc => (match proxyResult rpc with
+      | some (wrote, rd) => "answer:" ++ (if wrote then "T" else "F") ++ ":" ++
+          joinOr "," ((sortBy pairLt rd).map (fun x => s!"{x.1}={x.2}"))
+      | none => "failure")
     | none => "bad-op"
   | ["goal", total, bad, full, goal] =>
     match (do
